@@ -5,6 +5,7 @@ pub mod ffi;
 pub mod filter;
 pub mod framing;
 pub mod lifecycle_net;
+pub mod serial_pty;
 pub mod server_family;
 pub mod sessions;
 pub mod tls;
@@ -76,6 +77,8 @@ pub fn replay(path: &str) -> i32 {
         Some("c16-string") | Some("c16-match") | Some("c16-server") | Some("c16-ffi") => filter::replay_c16(scn),
         Some("c19-db") | Some("c19-schedule") => ffi::replay_c19(scn),
         Some("c18-client") | Some("c18-server") | Some("c18-call-errors") | Some("c18-enums") => ffi::replay_c18(scn),
+        Some("serial-history") => serial_pty::replay_serial(scn),
+        Some("rtu-server-pty") => serial_pty::replay_rtu_server(scn),
         Some("net-history") => lifecycle_net::replay_net(scn),
         Some("client-sm") => client_sm::replay(scn),
         Some("client-stream") => framing::replay_client_stream(scn),
